@@ -198,6 +198,7 @@ def run_check(prop_id, obls, tier, seed, args, t0):
         if r["mode"] == "enum":
             a["enumerated"] += r["evaluations"]
         a["labels"].update(r["labels"])
+        a.setdefault("counters", Counter()).update(r.get("counters", {}))
         a["nt"].update(r["nt"])
         a["inconclusive"] += r["inconclusive"]
         for c in r.get("inconclusive_cases", []):
@@ -264,6 +265,7 @@ def run_check(prop_id, obls, tier, seed, args, t0):
                                 "signatures": {s: v["count"] for s, v in a["viol"].items()}}
                             for o, a in per_obl.items()},
             "classes": labels,
+            "counters": {o: dict(a.get("counters", {})) for o, a in per_obl.items() if a.get("counters")},
             "excluded_known": dict(excluded),
             "stale_known": [e["signature"] for e in stale],
             "witnesses_replayed": replayed,
